@@ -107,25 +107,47 @@ def make(elm, V, item):
     raise KeyError(kind)
 
 
+NOISE = 1e-12
+
+
+def coord(V, k, se, grid):
+    """terminal coordinate: free symbolic atom, or (grid configurations) a concrete grid point plus bounded floating-point noise"""
+    if grid is None:
+        return V.val(f't{k}.{se}', 'rany')
+    from fractions import Fraction as F_
+    g = F_(str(grid[(k, se)]))
+    eps = V.val(f'noise{k}.{se}', 'rany')
+    if V.sym:
+        V.assume_pos_nonstrict(eps + F_(str(NOISE))); V.assume_pos_nonstrict(F_(str(NOISE)) - eps)
+        core.CTX.extra.setdefault('noise', {})[core.CTX.atoms.by_name[f'noise{k}.{se}']] = F_(str(NOISE))
+        return g + eps
+    e = float(eps) if abs(float(eps)) <= NOISE else (NOISE if float(eps) > 0 else -NOISE) * 0.5          # inside the noise band, sign kept
+    return float(g) + e
+
+
 def execute(cfg, V):
     with patched(V.sym) as r:
         elm = r['elm']; P = r['Point']
         items = cfg['items']
         els = []; info = []
+        grid = None
+        if cfg.get('grid'):
+            grid = {}
+            for k, (a_, b_) in enumerate(cfg['grid']): grid[(k, 's')] = a_; grid[(k, 'e')] = b_
         for k, item in enumerate(items):
             kind, name, fl = item
             if kind == 'Gnd':
-                e = elm.Ground(name=fl.get('label', '0')); a = V.val(f't{k}.s', 'rany'); b = a; exp = ('ground', {}, False)
+                e = elm.Ground(name=fl.get('label', '0')); a = coord(V, k, 's', grid); b = a; exp = ('ground', {}, False)
             elif kind == 'Node':
-                e = elm.Node(name=fl['label']); a = V.val(f't{k}.s', 'rany'); b = a; exp = None
+                e = elm.Node(name=fl['label']); a = coord(V, k, 's', grid); b = a; exp = None
             else:
                 e, exp = make(elm, V, item)
-                a = V.val(f't{k}.s', 'rany'); b = V.val(f't{k}.e', 'rany')
+                a = coord(V, k, 's', grid); b = coord(V, k, 'e', grid)
             e.absanchors = {'start': P((a, 0)), 'end': P((b, 0))}
             els.append(e); info.append((kind, name, fl, a, b, exp))
         # a two-terminal symbol has two distinct terminals
         for kind, name, fl, a, b, exp in info:
-            if kind not in ('Gnd', 'Node') and bool(a == b): return []
+            if kind not in ('Gnd', 'Node') and grid is None and bool(a == b): return []
         # ---- oracle: union-find over coincidence (decided on the path) and wires
         terms = []
         for k, (kind, name, fl, a, b, exp) in enumerate(info):
@@ -136,7 +158,9 @@ def execute(cfg, V):
             while parent[x] != x: parent[x] = parent[parent[x]]; x = parent[x]
             return x
         for i, j_ in itertools.combinations(range(len(terms)), 2):
-            if bool(terms[i][2] == terms[j_][2]): parent[find(i)] = find(j_)
+            if grid is not None: coincide = (grid[(terms[i][0], terms[i][1])] == grid[(terms[j_][0], terms[j_][1])])          # same grid point
+            else: coincide = bool(terms[i][2] == terms[j_][2])
+            if coincide: parent[find(i)] = find(j_)
         tix = {(k, se): n for n, (k, se, _) in enumerate(terms)}
         for k, (kind, name, fl, a, b, exp) in enumerate(info):
             if kind == 'W': parent[find(tix[(k, 's')])] = find(tix[(k, 'e')])
@@ -262,8 +286,8 @@ def configs(tier, seed):
     ]
     # (3) wire runs joined by a later wire: three wires with free end points (every coincidence pattern, hence every order / direction of bridging)
     cfgs.append({'items': [('W', 'w1', {}), ('W', 'w2', {}), ('W', 'w3', {}), ('Gnd', 'g', {'label': '0'})]})
-    cfgs.append({'items': [('W', 'w1', {}), ('W', 'w2', {}), ('W', 'w3', {}), ('R', 'R1', {})]})
     if tier == 'thorough':
+        cfgs.append({'items': [('W', 'w1', {}), ('W', 'w2', {}), ('W', 'w3', {}), ('R', 'R1', {})]})
         cfgs.append({'items': [('W', 'w1', {}), ('W', 'w2', {}), ('W', 'w3', {}), ('W', 'w4', {}), ('Node', 'n', {'label': 'A'})]})
         cfgs.append({'items': [('W', 'w1', {}), ('W', 'w2', {}), ('W', 'w3', {}), ('V', 'V1', {}), ('Gnd', 'g', {'label': '0'})]})
     if tier == 'thorough':
@@ -277,7 +301,7 @@ def configs(tier, seed):
         # symbolic coordinates per list: 2 per two-terminal item, 1 per label / ground; the number of coincidence patterns grows like the
         # Bell number (8 coordinates: 4140 paths, 9: 21147), so the number of insertion orders is budgeted by it
         ncoord = sum(1 if it[0] in ('Gnd', 'Node') else 2 for it in bl)
-        budget = 6 if tier == 'quick' else (24 if ncoord <= 7 else 8 if ncoord == 8 else 2)
+        budget = (6 if ncoord <= 7 else 3) if tier == 'quick' else (24 if ncoord <= 7 else 8 if ncoord == 8 else 2)
         if len(orders) > budget: orders = rng.sample(orders, budget)
         for o in orders:
             cfgs.append({'items': [bl[i] for i in o]})
@@ -286,6 +310,16 @@ def configs(tier, seed):
         for k0 in range(1, len(bl)):
             cfgs.append({'items': bl, 'history': k0})
             if tier == 'thorough': cfgs.append({'items': bl[::-1], 'history': k0})
+    # (5) drawings on a grid: every terminal sits on a concrete grid point plus its own bounded floating-point noise (|noise| <= 1e-12, either sign,
+    #     as left by the placement arithmetic); grid points are at least 0.02 apart; points exactly half-way between two hundredths included
+    loops = [
+        [0.005, 1.125, 2.25], [0, 1.13, 2.26], [-1.125, 3.375, 0.335], [0.1, 0.2, 0.35], [1.005, 1.025, 1.045], [7, 14, 21.005],
+    ] + ([[0.015, 0.035, 0.055], [-0.665, 0.335, 1.335], [2.675, 2.695, 2.715], [100.005, 100.125, 100.245]] if tier == 'thorough' else [])
+    for g0, g1, g2 in loops:
+        items = [('V', 'V1', {}), ('R', 'R1', {}), ('R', 'R2', {}), ('W', 'w1', {}), ('Gnd', 'g', {'label': '0'})]
+        gw = round(g2 + 0.5, 3)
+        cfgs.append({'items': items, 'grid': [(g0, g1), (g1, g2), (g2, gw), (gw, g0), (g0, g0)]})
+        cfgs.append({'items': items[::-1], 'grid': [(g0, g0), (g0, gw), (gw, g2), (g2, g1), (g1, g0)]})
     cfgs.append({'items': base_lists[0], 'twin': True})
     return cfgs, None
 
@@ -300,7 +334,7 @@ def main(tier):
     driver.run_pool(driver.guarded(worker), cfgs, rep, chunksize=1, progress_every=20)
     return rep.finish(
         explanation='bounded symbolic verification: real symbol objects (every two-terminal kind of the component translator table except the two compound sources, wires, node labels, ground; every reversal / sine / degree flag combination) are given SYMBOLIC terminal coordinates; the real parser and translator are executed and every coincidence pattern of the terminals is explored by forking on coordinate equality; on each path the node index of every terminal pair agrees with an independent union-find over "coincide or joined by a wire", labels and the ground symbol name the node they sit on, and the translated component list equals the intended netlist (identifier, kind, terminal order with source polarity start->end unless reversed, every value as a polynomial identity, degree->radian and sine->cosine conversion of phases)',
-        assumptions=['schemdraw placement (at / right / up, rotation, unit scaling) is not encoded: anchors are free symbolic coordinates, so invariance under rotation / translation / rescaling / wire splitting holds exactly as far as those operations preserve which terminals coincide', 'round_node (2 decimals) is the identity on the symbolic coordinates',
+        assumptions=['schemdraw placement (at / right / up, rotation, unit scaling) is not encoded: anchors are free symbolic coordinates, so invariance under rotation / translation / rescaling / wire splitting holds exactly as far as those operations preserve which terminals coincide', 'free symbolic coordinates: round_node is the identity on them; grid configurations: a terminal is a concrete grid point plus its own bounded noise (|noise| <= 1e-12) and the real round() is modelled (exact away from ties, forks on the sign of the noise exactly on a tie)',
                      'label text formatting is stubbed (C18 / C14)', 'at most one explicit label per electrical node', 'two-terminal symbols have distinct terminals', 'compound RealVoltageSource / RealCurrentSource symbols are not covered', 'history variants: the same drawing object is translated after its first k symbols and again when complete (every k)'],
         bounds={'element lists': 'up to ' + ('4' if tier == 'quick' else '5') + ' items (up to ' + ('3' if tier == 'quick' else '4') + ' wires); insertion orders: all for <= 3 items, seeded sample above', 'symbol kinds': list(TWO_TERMINAL) + ['Gnd', 'Node']},
         trusted=['z3 (QF_LRA through symx)', 'symx executor'])
